@@ -330,6 +330,13 @@ impl<'a, 'tcx> Cx<'a, 'tcx> {
                 Const::Ty(_, ct) => {
                     if let Some(si) = ct.try_to_leaf() {
                         self.scalar(si, ty, out);
+                    } else if let Some(bytes) = ct.try_to_value().and_then(|v| {
+                        let is_str = matches!(v.ty.kind(), ty::Ref(_, inner, _) if inner.is_str());
+                        if is_str { v.try_to_raw_bytes(tcx) } else { None }
+                    }) {
+                        if let Ok(st) = std::str::from_utf8(bytes) {
+                            let _ = write!(out, ",\"str\":{}", js(st));
+                        }
                     } else {
                         let _ = write!(out, ",\"tyconst\":{}", js(&trunc(format!("{:?}", ct))));
                     }
